@@ -144,7 +144,7 @@ fn type_last_ident(t: &Type) -> Option<String> {
     }
 }
 
-fn strip_group(t: &Type) -> &Type {
+pub fn strip_group(t: &Type) -> &Type {
     match t {
         Type::Group(g) => strip_group(&g.elem),
         Type::Paren(g) => strip_group(&g.elem),
